@@ -46,6 +46,14 @@ def tpl_flushp(x2, a2, x3, a3, x4, a4, _twin=False):
     return _run(2, 3, 2, [(NOP, 0), (x2, a2), (x3, a3), (x4, a4)], 9, 4, _twin)
 
 
+def tpl_flushq(x2, a2, x3, a3, x4, a4, _twin=False):
+    """Prologue with three tasks: task 0 ended (slow end callback), flush A waits for it; task 1 ended (slow callback),
+    flush B waits for both; task 0's callback returns, so A has completed and forgotten task 0 while B still waits.
+    Then three symbolic steps (typically: task 2 ends, task 1's callback returns): B may only forget what *it* gathered,
+    however the registry has shifted meanwhile."""
+    return _run(3, 3, 3, [(NOP, 0), (x2, a2), (x3, a3), (x4, a4)], 9, 5, _twin)
+
+
 def tpl_flushm(size, k, c, x2, a2, x3, a3, x4, a4, _twin=False):
     """Prologue: a map over three elements whose argument iterable breaks when asked for element k - its meta task has
     *failed* (not been cancelled) by the time of the flushes.  flush(return_exceptions=True) must still never raise and
@@ -116,6 +124,13 @@ def _run(size, cb, n1, steps, t, pro, _twin, conc=1):
                 it.cancel(0)
                 it.cancel(1)
                 w.settle()
+            elif pro == 5:
+                w.settle()
+                it.release(0); w.settle()
+                it.flush(True); w.settle()
+                it.release(1); w.settle()
+                it.flush(True); w.settle()
+                it.cb_release(0); w.settle()
             elif pro == 2 or pro == 4:
                 w.settle()
                 it.release(0); w.settle()
@@ -138,6 +153,9 @@ def _run(size, cb, n1, steps, t, pro, _twin, conc=1):
         if _twin and not code and not w.excluded:
             if pro == 3:
                 if any(f.done() and s["finished"] for f, _, s in it.flushes) and any(r.get("iter_raised") for r in it.reqs):
+                    code = 77
+            elif pro == 5:
+                if len(it.flushes) >= 2 and all(f.done() for f, _, _ in it.flushes) and len(w.W) == 3 and not w.live:
                     code = 77
             elif pro == 4:
                 if len(it.flushes) >= 2 and all(f.done() for f, _, _ in it.flushes) and not pool.num_ended:
@@ -186,6 +204,13 @@ def families(tier):
                        ["0 <= x2 <= %d" % NOP, "-1 <= a2 <= 2", "0 <= x3 <= %d" % NOP, "-1 <= a3 <= 2", "0 <= x4 <= %d" % NOP, "-1 <= a4 <= 2"]),
                   parts=parts_product(x2=(3, 4, 5, NOP)) if not thorough else parts_product(x2=range(NOP + 1), x3=range(NOP + 1)),
                   twin_pre=["x2 == 4", "x3 == 3"], twin_args=[4, 0, 3, 0, NOP, 0])
+    famq = Family(name="flushq", fn="tpl_flushq", params=PC,
+                  pre=(["x2 == 1 or 3 <= x2 <= 5 or x2 == %d" % NOP, "0 <= a2 <= 2", "x3 == 1 or 3 <= x3 <= 5 or x3 == %d" % NOP, "0 <= a3 <= 2",
+                        "3 <= x4 <= 4 or x4 == %d" % NOP, "0 <= a4 <= 1"]
+                       if not thorough else
+                       ["0 <= x2 <= %d" % NOP, "-1 <= a2 <= 2", "0 <= x3 <= %d" % NOP, "-1 <= a3 <= 2", "0 <= x4 <= %d" % NOP, "-1 <= a4 <= 2"]),
+                  parts=parts_product(x2=(1, 3, 4, 5, NOP)) if not thorough else parts_product(x2=range(NOP + 1), x3=range(NOP + 1)),
+                  twin_pre=["x2 == 1", "x3 == 3"], twin_args=[1, 2, 3, 0, NOP, 0])
     PM = ["size", "k", "c", "x2", "a2", "x3", "a3", "x4", "a4"]
     prem = ["size >= 1", "1 <= k <= 2", "1 <= c <= 2", "0 <= x2 < %d" % NOP, "0 <= x3 <= %d" % NOP, "0 <= x4 <= %d" % NOP]
     if not thorough:
@@ -196,6 +221,6 @@ def families(tier):
         partsm = parts_product(k=(1, 2), c=(1, 2), x2=range(NOP), x3=range(NOP + 1))
     famm = Family(name="flushm", fn="tpl_flushm", params=PM, pre=prem, parts=partsm,
                   twin_pre=["k == 1", "c == 1", "x2 == 1", "x3 == 3", "x4 == 4"], twin_args=[2, 1, 1, 1, 0, 3, 0, 4, 0])
-    return [famc, famo, famp, famm, Family(name="flush", fn="tpl_flush", params=P, pre=pre, parts=parts,
+    return [famc, famo, famp, famq, famm, Family(name="flush", fn="tpl_flush", params=P, pre=pre, parts=parts,
                    twin_pre=["cb == 3", "n1 == 2", "x2 == 1", "x3 == 3", "x4 == 4", "x5 == %d" % NOP],
                    twin_args=[2, 3, 2, 1, 0, 3, 0, 4, 0, NOP, 0, 5])]
